@@ -6,6 +6,7 @@ package tree
 
 import (
 	"bytes"
+	"cmp"
 	_ "embed"
 	"fmt"
 	"go/parser"
@@ -653,8 +654,14 @@ func (t *Tree) Compile(file string, args []string, out io.Writer) (err error) {
 			}
 		}
 	}
-	/* sort imports to satisfy gofmt */
-	slices.Sort(t.Imports)
+	/* sort imports by path (then name) to satisfy gofmt, and drop the ones
+	   the grammar shares with the runtime */
+	slices.SortFunc(t.Imports, func(a, b string) int {
+		aPath, aName, _ := strings.Cut(a, "=")
+		bPath, bName, _ := strings.Cut(b, "=")
+		return cmp.Or(strings.Compare(aPath, bPath), strings.Compare(aName, bName))
+	})
+	t.Imports = slices.Compact(t.Imports)
 
 	/* second pass */
 	for _, n := range slices.Collect(t.Iterator()) {
